@@ -26,6 +26,12 @@
 #include "checker/checkercomponent.hpp"
 #include "notification/notificationcomponent.hpp"
 #include <boost/asio/io_context.hpp>
+#include "icinga/command.hpp"
+#include <thread>
+#include <atomic>
+#include <random>
+#include <chrono>
+#include <set>
 
 using namespace icinga;
 
@@ -62,6 +68,7 @@ NotificationComponent::Ptr l_NotifComp;
 boost::asio::io_context l_Io;                   // never run
 JsonRpcConnection::Ptr l_Client[2];             // l_Client[n]: node n's connection to its peer
 bool l_Init = false;
+std::atomic<bool> l_Concurrent{false};          // a real-thread operation is running: the single-threaded bookkeeping is off
 
 void InitOnce()
 {
@@ -76,9 +83,11 @@ void InitOnce()
 	l_Checker->OnConfigLoaded();
 	l_NotifComp = new NotificationComponent();
 	ConfigObject::OnPauseCalledChanged.connect([](const ConfigObject::Ptr& o, const Value&) {
+		if (l_Concurrent.load()) return;
 		if (o->GetPauseCalled()) l_Calls[o.get()].first++;
 	});
 	ConfigObject::OnResumeCalledChanged.connect([](const ConfigObject::Ptr& o, const Value&) {
+		if (l_Concurrent.load()) return;
 		if (o->GetResumeCalled()) l_Calls[o.get()].second++;
 	});
 }
@@ -269,7 +278,91 @@ std::string Join(const Args& a)
 	return r;
 }
 
+// A run-once object whose Resume()/Pause() are observable and may take a moment (like a feature that
+// (re)connects to its backend there).  The calls are logged in the order they happen.
+class AuCountedObject final : public Command
+{
+public:
+	std::mutex LogMutex;
+	std::string CallLog;
+	std::atomic<int> MaxDelayUs{0};
+
+	void Note(char c)
+	{
+		{ std::unique_lock<std::mutex> lock(LogMutex); CallLog += c; }
+		int d = MaxDelayUs.load();
+		if (d > 0) {
+			thread_local std::minstd_rand rnd(std::hash<std::thread::id>()(std::this_thread::get_id()));
+			int us = (int)(rnd() % (unsigned)(d + 1));
+			if (rnd() % 3 == 0) {
+				auto until = std::chrono::steady_clock::now() + std::chrono::microseconds(us);
+				while (std::chrono::steady_clock::now() < until) std::this_thread::yield();
+			}
+		}
+	}
+	void Resume() override { Note('R'); Command::Resume(); }
+	void Pause() override { Note('P'); Command::Pause(); }
+};
+
 } // namespace
+
+// au_conc n=<threads> rounds=<k> p0=<0|1> mix=<0|1> delay=<max us inside Resume/Pause>
+// Per round: the object is put into state p0, n real threads are released together; with mix=0 all of them
+// run the real ApiListener::UpdateObjectAuthority() (no zone: authority = true for everything), with mix=1 every
+// second one calls SetAuthority(false) on the object instead.  Reported: the set of distinct
+// (p0 : call sequence : paused after all threads joined) seen over the rounds.
+VOP(au_conc)
+{
+	InitOnce();
+	int n = (int)a.num("n", 4), rounds = (int)a.num("rounds", 100);
+	bool p0 = a.num("p0", 1) != 0, mix = a.num("mix", 0) != 0;
+	intrusive_ptr<AuCountedObject> obj = new AuCountedObject();
+	obj->SetName("au-conc-object", true);
+	obj->Register();
+	obj->PreActivate();
+	obj->MaxDelayUs.store((int)a.num("delay", 100));
+	ApiListener::m_Instance = nullptr;
+	std::set<std::string> seen;
+	std::minstd_rand jr((unsigned)a.num("seed", 1));
+	l_Concurrent.store(true);
+	for (int r = 0; r < rounds; r++) {
+		obj->SetPaused(p0, true);
+		{ std::unique_lock<std::mutex> lock(obj->LogMutex); obj->CallLog.clear(); }
+		std::atomic<int> ready{0};
+		std::atomic<bool> go{false};
+		std::vector<std::thread> ths;
+		for (int j = 0; j < n; j++) {
+			int jitter = (int)(jr() % 40);
+			ths.emplace_back([&, j, jitter]() {
+				ready++;
+				while (!go.load()) std::this_thread::yield();
+				if (jitter > 20) {
+					auto until = std::chrono::steady_clock::now() + std::chrono::microseconds(jitter - 20);
+					while (std::chrono::steady_clock::now() < until) { }
+				}
+				if (mix && (j % 2 == 1)) obj->SetAuthority(false);
+				else ApiListener::UpdateObjectAuthority();
+			});
+		}
+		while (ready.load() < n) std::this_thread::yield();
+		go.store(true);
+		for (auto& t : ths) t.join();
+		std::string log;
+		{ std::unique_lock<std::mutex> lock(obj->LogMutex); log = obj->CallLog; }
+		seen.insert(std::string(p0 ? "1" : "0") + ":" + (log.empty() ? "-" : log) + ":" + (obj->GetPaused() ? "1" : "0"));
+	}
+	l_Concurrent.store(false);
+	obj->MaxDelayUs.store(0);
+	try { obj->Deactivate(false); } catch (...) {}
+	obj->Unregister();
+	ApiListener::m_UpdatedObjectAuthority.store(false);
+	l_Calls.clear();
+	std::string seqs;
+	for (auto& t : seen) { if (!seqs.empty()) seqs += ","; seqs += t; }
+	std::ostringstream o;
+	o << "cc n=" << n << " rounds=" << rounds << " p0=" << (p0 ? 1 : 0) << " mix=" << (mix ? 1 : 0) << " seqs=" << seqs;
+	Out(o.str());
+}
 
 // au_sdbm <hex>  ->  sdbm <decimal>
 VOP(au_sdbm)
